@@ -174,6 +174,18 @@ def run_case(case, seed):
                 ok3, parts2 = call(lambda: q.split_quat_channels(q.stack_quat_channels(base[..., 0], base[..., 1], base[..., 2], base[..., 0] * 2)))
                 if not ok3 or not all(np.array_equal(a, b) for a, b in zip(parts2, (base[..., 0], base[..., 1], base[..., 2], base[..., 0] * 2))):
                     fails.append(fail("stack_split_identity", f"{vcls}", **tags))
+        # channel planes of mixed dtype: stack must use the common result type, split(stack(.)) returns the planes
+        for nm, dts in (("int_real_plane", (np.int64, float, float, float)), ("f32_real_plane", (np.float32, float, float, float)),
+                        ("uint8_mask_real", (np.uint8, float, float, float)), ("f32_colour", (float, np.float32, float, float))):
+            planes = []
+            for t, dt in enumerate(dts):
+                v = fill.dyadic((H, W), bits=8, lo=0, hi=255) + (t + 1) * 0.001953125
+                planes.append(np.floor(v).astype(dt) if np.issubdtype(dt, np.integer) else v.astype(dt))
+            ok, st = call(q.stack_quat_channels, *planes)
+            ok2, parts = call(q.split_quat_channels, st) if ok else (False, None)
+            evals += 1
+            if not ok or not ok2 or st.shape != (H, W, 4) or not all(np.array_equal(np.asarray(a, float), np.asarray(b, float)) for a, b in zip(parts, planes)):
+                fails.append(fail("stack_split_identity", f"mixed dtype planes ({nm})", grp="img", vcls=nm))
     elif grp == "metrics":
         q = lib.qslst
         nontrivial = True
